@@ -43,6 +43,11 @@ def configs(tier):
             extra = 3 if tier == 'quick' else (5 if k <= 3 else 4)
             cfgs.append(dict(group='law', k=k, n=k + extra, p=p, _cost=(k + 1) ** extra))
     cfgs.append(dict(group='ctor', k=3))
+    sizes = list(range(1, 70)) + [97, 98, 100, 103, 107, 127, 128, 129, 161, 187, 196, 197, 255, 256, 257, 300, 1000]
+    if tier == 'thorough':
+        sizes = list(range(1, 400)) + [511, 512, 513, 1000, 1023, 1024, 1025, 2000]
+    for chunk in range(0, len(sizes), 12):
+        cfgs.append(dict(group='size_sweep', sizes=sizes[chunk:chunk + 12], _cost=50))
     return cfgs
 
 
@@ -284,3 +289,11 @@ def _law_concrete(env, cfg):
         exp = _expected(k, n, t, pv)
         env.claim(f"inclusion_law[k={k},n={n},t={t}]", prob[t] == exp,
                   detail=f"p={pv}: P(arrival {t} retained after {n}) = {prob[t]} but the law gives {exp}")
+
+
+def _size_sweep(env, cfg, ctx):
+    """'once full' means after exactly k observations, for every size: with p = 0 nothing enters afterwards, with p = 1
+    every arrival enters (slot draw scripted to 0, so no forks)"""
+    from . import C07
+    sub_cfg = dict(cfg)
+    return C07._size_sweep(env, sub_cfg)
